@@ -351,7 +351,7 @@ theorem finishSet_sound (P : SI → Prop) (hJ : JoinOK P) (bits : Nat) (results 
         obtain ⟨i, _, hi⟩ := List.mem_filterMap.1 hs
         have hmem : s ∈ dedupe results := List.mem_of_getElem? hi
         exact hP s (dedupe_subset _ s hmem)
-    exact normalize_sound P hJ { bits := bits, sis := l } v hPl h x (memL_mono _ _ hsub x hx)
+    exact normalize_sound P hJ { bits := setBits bits l, sis := l } v hPl h x (memL_mono _ _ hsub x hx)
 
 /-- **Lifting theorem (binary)**: an interval operation that is sound on every pair of members is sound on a set
 of intervals against a list of intervals, for every recorded set order. -/
